@@ -266,6 +266,23 @@ static std::string handle(const std::string& cmd, const std::string& args) {
     if (data.size() > 65536) data.resize(65536);
     return guarded(w.at(0), std::move(data), (int) to_ll(w.at(1)));
   }
+  if (cmd == "linedel") {      // linedel <kind> <opt> <path> <line_start> <col> <ndel> <cut>: a span deleted inside one line,
+                               // so that the text behind it moves into earlier columns; cut=1: the line also ends cut_at bytes later
+    std::ifstream f(w.at(2), std::ios::binary);
+    std::string data((std::istreambuf_iterator<char>(f)), std::istreambuf_iterator<char>());
+    size_t ls = (size_t) to_ll(w.at(3)), col = (size_t) to_ll(w.at(4)), nd = (size_t) to_ll(w.at(5));
+    long long cut = to_ll(w.at(6));
+    size_t e = data.find('\n', ls);
+    if (e == std::string::npos) e = data.size();
+    if (ls + col < e) {
+      nd = std::min(nd, e - (ls + col));
+      data.erase(ls + col, nd);
+      e -= nd;
+      if (cut > 0 && ls + col + (size_t) cut < e) data.erase(ls + col + (size_t) cut, e - (ls + col + (size_t) cut));
+    }
+    if (data.size() > 65536) data.resize(65536);
+    return guarded(w.at(0), std::move(data), (int) to_ll(w.at(1)));
+  }
   if (cmd == "file") {         // file <kind> <opt> <path> <trunc_len or -1> <nmut> <seed>
     std::ifstream f(w.at(2), std::ios::binary);
     std::string data((std::istreambuf_iterator<char>(f)), std::istreambuf_iterator<char>());
